@@ -92,6 +92,9 @@ class ModuleInfo:
         with open(path, encoding="utf-8") as f:
             self.src = f.read()
         self.tree = ast.parse(self.src, filename=path)
+        if not os.environ.get("VERIF_NO_NORMALISE"):
+            from .normalise import normalise
+            normalise(self.tree)
         self.lines = self.src.splitlines()
         self.funcs = {}       # qual -> [FuncInfo,...] (several under if/else)
         self.classes = {}     # name -> ClassDef
